@@ -201,12 +201,22 @@ class FsRun:
         return ev
 
     # ---- the run --------------------------------------------------------------------------------------------
-    def run(self):
+    def restart(self, ops):
+        """a new writer process on the tree the killed one left behind; the event list goes on"""
+        self.ops = ops
+        self.killed = False
+        self.events.append(dict(ev="restart"))
+        return self.run(fresh=False)
+
+    def run(self, fresh=True):
         cc = self.cc
-        if os.path.exists(self.root):
-            shutil.rmtree(self.root)
-        os.makedirs(self.chdir)
+        if fresh:
+            if os.path.exists(self.root):
+                shutil.rmtree(self.root)
+            os.makedirs(self.chdir)
         sp = os.path.join(self.root, "ctl.sock")
+        if os.path.exists(sp):
+            os.unlink(sp)
         srv = socket.socket(socket.AF_UNIX, socket.SOCK_STREAM)
         srv.bind(sp)
         srv.listen(4)
